@@ -333,7 +333,8 @@ def wiring(ctx: Ctx, rule="WIRING"):
         rets = [s for s in ast.walk(fi.node) if isinstance(s, ast.Return) and s.value is not None]
         if len(rets) != 1:
             return None
-        return rets[0].value
+        # temporaries between the computation and the return are resolved
+        return view(m, fi).expand(rets[0].value, rets[0])
 
     def callee_role(fi, call):
         if not isinstance(call, ast.Call):
